@@ -115,5 +115,5 @@ func (o *Once) Do(f func()) {
 	o.real.Do(f)
 }
 
-func OnceFunc(f func()) func()                 { return sync.OnceFunc(f) }
-func OnceValue[T any](f func() T) func() T     { return sync.OnceValue(f) }
+func OnceFunc(f func()) func()             { return sync.OnceFunc(f) }
+func OnceValue[T any](f func() T) func() T { return sync.OnceValue(f) }
